@@ -172,6 +172,21 @@ CHECKS = {
               "units with default arguments): pack() by design converts to internal units otherwise. Lattice tolerance 1e-7."),
         technique="TLA+ spec (SampleTable) theorems model-checked with TLC; replay of TLC-enumerated tables; trace validation by total monitor",
     ),
+    "C18": dict(
+        category="model_checking",
+        text=("TLC enumerates the decision tables of Validation: every prior case with <=2 defective parameters (missing / no unit / "
+              "inconvertible unit / non-Normal linear prior / constant) for poly_trend 1..3 x n_offsets 0..2, and every data case (single, "
+              "list, dict, non-iterable; 1..3 sources; a non-RVData element; a covariance source), and checks that acceptance implies "
+              "Normal linear priors, nothing missing and matching source counts. Each enumerated case (quick: <=1 defect) is built with "
+              "real pymc variables (canonical and alternative units) and passed to JokerPrior(...) / "
+              "TheJoker(...).marginal_ln_likelihood(...); accepted priors must list parameters as nonlinear, linear, offsets and run "
+              "the kernel; a seeded sample of the JokerPrior.default argument table is covered; the ValidationTrace monitor compares "
+              "outcome (accepted / raised) with the specification."),
+        design_ref="DESIGN.md section 3 C18",
+        note=("Trusted: TLC, pymc. Any exception counts as 'raises'. An 'omitted' offset is realised as an offset under a wrong name, "
+              "because n_offsets is by definition the length of v0_offsets."),
+        technique="TLA+ spec (Validation) decision tables enumerated and checked with TLC; replay of every enumerated case; trace validation by total monitor",
+    ),
 }
 
 NOT_YET = "check not built yet (build in progress; see DESIGN.md section 7)"
